@@ -18,6 +18,11 @@ package main
 //   syncDial     the DialNetworkTLS call is a plain call of the function's own task: the function contains the call, not
 //                inside a function literal, and contains no `go` statement at all (a dial or an exchange started in a
 //                task of its own can outlive the request that started it)
+//   connBound    the answer handler is registered for the connection the request dialled and ignores messages read from any
+//                other connection: the handler factory is called with the dialled connection as an argument, and the handler's
+//                first statement is `if <its conn parameter> != <that argument> { return }` (the state machine the handler is
+//                registered on is shared by all connections of the subscriber: the reader task of a connection closed at a
+//                time-out may still hand a message it had already read to the handler registered by the NEXT request)
 //   dialDeadlineMs  when the dial is not synchronous: the duration of a time.After case of a select that does not
 //                receive from the answer channel (the deadline after which the request stops waiting), else 0
 
@@ -39,6 +44,7 @@ type clientFacts struct {
 	watchdog                                   bool
 	syncDial                                   bool
 	dialDeadlineMs                             int
+	connBound                                  bool
 }
 
 // EnableWatchdog of the sm.Client stored in field `field` of the subscriber context
@@ -108,11 +114,53 @@ func exprStr(e ast.Expr) string {
 
 func astClientFacts(file, sendFn, handlerFn string) (clientFacts, error) {
 	var cf clientFacts
+	handlerChecks := false
 	fset := token.NewFileSet()
 	f, err := parser.ParseFile(fset, file, nil, 0)
 	if err != nil {
 		return cf, err
 	}
+	// helper functions of the file that make the dial themselves (a plain call, not in a function literal, no go statement)
+	// and hand the connection back: `conn, err := helper(...)` in the client function is then the dial
+	dialHelpers := map[string]string{} // helper name -> client field
+	for _, d := range f.Decls {
+		fd, ok := d.(*ast.FuncDecl)
+		if !ok || fd.Body == nil || fd.Name.Name == sendFn || fd.Recv != nil {
+			continue
+		}
+		field, plain, other := "", 0, 0
+		var walkH func(n ast.Node, inLit bool)
+		walkH = func(n ast.Node, inLit bool) {
+			ast.Inspect(n, func(k ast.Node) bool {
+				switch x := k.(type) {
+				case *ast.GoStmt:
+					other++
+				case *ast.FuncLit:
+					if !inLit {
+						walkH(x.Body, true)
+						return false
+					}
+				case *ast.CallExpr:
+					if strings.HasSuffix(exprStr(x.Fun), "DialNetworkTLS") {
+						if inLit {
+							other++
+						} else {
+							plain++
+							if parts := strings.Split(exprStr(x.Fun), "."); len(parts) >= 2 {
+								field = parts[len(parts)-2]
+							}
+						}
+					}
+				}
+				return true
+			})
+		}
+		walkH(fd.Body, false)
+		if plain == 1 && other == 0 {
+			dialHelpers[fd.Name.Name] = field
+		}
+	}
+	handlerConnArg := ""
 	for _, d := range f.Decls {
 		fd, ok := d.(*ast.FuncDecl)
 		if !ok || fd.Body == nil {
@@ -132,6 +180,10 @@ func astClientFacts(file, sendFn, handlerFn string) (clientFacts, error) {
 								if parts := strings.Split(exprStr(c.Fun), "."); len(parts) >= 2 {
 									cf.clientField = parts[len(parts)-2]
 								}
+							}
+							if field, ok := dialHelpers[exprStr(c.Fun)]; ok && len(x.Lhs) >= 1 {
+								connVar = exprStr(x.Lhs[0])
+								cf.clientField = field
 							}
 							if id, ok := c.Fun.(*ast.Ident); ok && id.Name == "make" && len(c.Args) >= 1 && x.Tok == token.DEFINE {
 								if _, isChan := c.Args[0].(*ast.ChanType); isChan {
@@ -153,8 +205,13 @@ func astClientFacts(file, sendFn, handlerFn string) (clientFacts, error) {
 				case *ast.CallExpr:
 					// <mux>.Handle("…", <handlerFn>(<chan>))
 					if strings.HasSuffix(exprStr(x.Fun), ".Handle") && len(x.Args) == 2 {
-						if hc, ok := x.Args[1].(*ast.CallExpr); ok && exprStr(hc.Fun) == handlerFn && len(hc.Args) == 1 {
+						if hc, ok := x.Args[1].(*ast.CallExpr); ok && exprStr(hc.Fun) == handlerFn && len(hc.Args) >= 1 {
 							handed = exprStr(hc.Args[0])
+							if len(hc.Args) >= 2 {
+								handlerConnArg = exprStr(hc.Args[1])
+							} else {
+								handlerConnArg = ""
+							}
 						}
 					}
 				case *ast.SelectStmt:
@@ -217,7 +274,19 @@ func astClientFacts(file, sendFn, handlerFn string) (clientFacts, error) {
 				})
 			}
 			walk(fd.Body, false)
+			// (a dial made through a helper of the file counts as this function's own plain call)
+			ast.Inspect(fd.Body, func(k ast.Node) bool {
+				if c, ok := k.(*ast.CallExpr); ok {
+					if _, isHelper := dialHelpers[exprStr(c.Fun)]; isHelper {
+						dialTop++
+					}
+				}
+				return true
+			})
 			cf.syncDial = goStmts == 0 && dialTop == 1 && dialNested == 0
+			if handlerConnArg != "" && handlerConnArg == connVar {
+				cf.connBound = true // … provided the handler checks it (below)
+			}
 			if !cf.syncDial {
 				// a select with a timer that is not the answer select
 				ast.Inspect(fd.Body, func(n ast.Node) bool {
@@ -281,8 +350,34 @@ func astClientFacts(file, sendFn, handlerFn string) (clientFacts, error) {
 				return true
 			})
 			cf.nonBlocking = sends > 0 && sends == guarded
+			// func H(ch chan …, from diam.Conn) diam.HandlerFunc { return func(c diam.Conn, m *diam.Message) { if c != from { return } … } }
+			handlerChecks = false
+			if fd.Type.Params != nil && len(fd.Type.Params.List) >= 2 && len(fd.Type.Params.List[1].Names) == 1 {
+				from := fd.Type.Params.List[1].Names[0].Name
+				ast.Inspect(fd.Body, func(n ast.Node) bool {
+					lit, ok := n.(*ast.FuncLit)
+					if !ok || lit.Type.Params == nil || len(lit.Type.Params.List) < 1 || len(lit.Type.Params.List[0].Names) != 1 || len(lit.Body.List) == 0 {
+						return true
+					}
+					c := lit.Type.Params.List[0].Names[0].Name
+					if ifs, ok := lit.Body.List[0].(*ast.IfStmt); ok && ifs.Init == nil && ifs.Else == nil {
+						if be, ok := ifs.Cond.(*ast.BinaryExpr); ok && be.Op == token.NEQ {
+							l, r := exprStr(be.X), exprStr(be.Y)
+							if (l == c && r == from) || (l == from && r == c) {
+								if n := len(ifs.Body.List); n >= 1 {
+									if rs, ok := ifs.Body.List[n-1].(*ast.ReturnStmt); ok && len(rs.Results) == 0 {
+										handlerChecks = true
+									}
+								}
+							}
+						}
+					}
+					return false
+				})
+			}
 		}
 	}
+	cf.connBound = cf.connBound && handlerChecks
 	return cf, nil
 }
 
@@ -303,8 +398,8 @@ func init() {
 				os.Exit(1)
 			}
 			cf.watchdog = astWatchdog(cf.clientField)
-			fmt.Fprintf(&sb, "/-- %s: %s / %s; internal/context: the sm.Client in field %q; serial: no call site above is async -/\ndef %s : Cfg := ⟨%v, %v, %v, %v, %d, %v, %v, %d, %v⟩\n\n", c.file, c.send, c.handler,
-				cf.clientField, c.name, cf.closesConn, cf.ownChan, cf.buffered, cf.nonBlocking, cf.timeoutMs, cf.watchdog, cf.syncDial, cf.dialDeadlineMs, serial[c.send])
+			fmt.Fprintf(&sb, "/-- %s: %s / %s; internal/context: the sm.Client in field %q; serial: no call site above is async -/\ndef %s : Cfg := ⟨%v, %v, %v, %v, %d, %v, %v, %d, %v, %v⟩\n\n", c.file, c.send, c.handler,
+				cf.clientField, c.name, cf.closesConn, cf.ownChan, cf.buffered, cf.nonBlocking, cf.timeoutMs, cf.watchdog, cf.syncDial, cf.dialDeadlineMs, serial[c.send], cf.connBound)
 		}
 		sb.WriteString("end Chf.Gen\n")
 		fmt.Print(sb.String())
